@@ -219,7 +219,10 @@ func runDumpSender(c *c13Case, cl *caller, fails *[]cq.ImplFailure) runOut {
 		before := ls.n()
 		writeCall(c, cl, w, i, false, &out)
 		out.ops = append(out.ops, cl.scribble()...)
-		gate <- struct{}{}
+		select {
+		case gate <- struct{}{}:
+		default:
+		}
 		if !waitFor(ls.n, before+1, 2*time.Second) {
 			*fails = append(*fails, cq.ImplFailure{Kind: "no-dump", Detail: fmt.Sprintf("packet %d not dumped", i), Case: c})
 		}
